@@ -46,6 +46,78 @@ def install_entropy():
     return _entropy
 
 
+_through_seam = {}
+
+
+def uuid_through_seam(xtuml):
+    '''
+    Does the UUIDGenerator of the library under test draw its entropy from the owned uuid.uuid4?  Probed once per
+    process.  When it does not (a library that reads os.urandom, secrets or the random module), the checks fall
+    back to the opaque mode below instead of reporting every id as "not the next value of the seam".
+    '''
+    key = id(xtuml)
+    if key not in _through_seam:
+        ent = install_entropy()
+        saved = (ent.seed, ent.k)
+        ent.reset(987654321)
+        try:
+            g = xtuml.UUIDGenerator()
+            got = [g.next(), g.next()]
+            _through_seam[key] = got == [entropy_value(987654321, 0), entropy_value(987654321, 1)]
+        except Exception:
+            _through_seam[key] = True       # not this probe's business: the checks will meet the exception themselves
+        finally:
+            ent.seed, ent.k = saved
+    return _through_seam[key]
+
+
+class Tape(object):
+    '''
+    Opaque mode: the ids come from the library's own source of entropy, read lazily onto a tape that the real
+    generator and the reference generator share by position.  What is demanded of the tape is what the property
+    demands of the ids: never null, never a repetition.
+    '''
+    def __init__(self, source):
+        self.source = source
+        self.values = []
+        self.seen = set()
+        self.bad = None
+
+    def get(self, k):
+        while len(self.values) <= k:
+            v = self.source()
+            if self.bad is None:
+                if v is None or v == 0:
+                    self.bad = 'the generator handed out the null id as its value number %d' % len(self.values)
+                elif v in self.seen:
+                    self.bad = ('the generator handed out %r a second time (value number %d was value number %d before)'
+                                % (v, len(self.values), self.values.index(v)))
+            self.seen.add(v)
+            self.values.append(v)
+        return self.values[k]
+
+
+LAST_TAPE = [None]
+
+
+def tape_generator(xtuml):
+    '''(real generator reading the tape, tape); the generator logic (peek / next) stays the library's own'''
+    source_gen = xtuml.UUIDGenerator()
+    tape = Tape(lambda: xtuml.UUIDGenerator.readfunc(source_gen))
+
+    class TapeGenerator(xtuml.UUIDGenerator):
+        def __init__(self):
+            self._k = 0
+            xtuml.UUIDGenerator.__init__(self)
+
+        def readfunc(self):
+            v = tape.get(self._k)
+            self._k += 1
+            return v
+    LAST_TAPE[0] = tape
+    return TapeGenerator(), tape
+
+
 class StubClock(object):
     '''No property reads time; the stub only guarantees that no run can observe real time.'''
     def __init__(self):
